@@ -71,7 +71,7 @@ def validation(P, M, S):
     benign = sorted(k for k, v in M.items() if v["kind"] == "benign")
     silent = [k for k in benign if not M[k]["caught"]]
     limits = sorted(k for k, v in M.items() if v["kind"] == "limit")
-    out.append(f"**Behaviour-preserving refactorings:** {len(benign)} stored patches under `benign/` (rf1 .. rf82, four per sub-agent, minus the "
+    out.append(f"**Behaviour-preserving refactorings:** {len(benign)} stored patches under `benign/` (rf1 .. rf88, four per sub-agent, minus the "
                f"documented limitations), {len(silent)} silent for every claimed property on the final machinery; {len(limits)} more under "
                "`benign-limits/` (see its README and section 3) are reported, by: " +
                "; ".join(f"{k.split('/')[1].replace('.patch', '')}: {', '.join(M[k]['caught']) or 'nothing'}" for k in limits) + ".\n")
